@@ -152,6 +152,11 @@ def _case(draw, tier):
         case["other"] = draw(st.sampled_from([["const", draw(st.sampled_from(ctx.P["ints"]))], ["const", draw(st.sampled_from(ctx.P["ints"]))],
                                               ["attr", ["var", 0], draw(st.sampled_from(["a", "b"]))]]))
         case["sub_side"] = draw(st.sampled_from(["left", "left", "right"]))
+        # the attribute is selected INSIDE the sub-query: an(entity(x.a, c)) <op> other   instead of   an(entity(x, c)).a <op> other
+        case["attr_selected_inside"] = case["pred_form"] is None and chance(draw, 1, 3)
+        if case["attr_selected_inside"] and chance(draw, 1, 2):
+            # ... and the sub-query's own condition does not mention the variable whose attribute it selects
+            case["sub_cond"] = leaf(draw, ctx, [0])
         case["pre_first"] = chance(draw, 3, 4)
         k = draw(st.sampled_from([1, 2, 2]))
         case["sel"] = [["var", v] for v in list(draw(st.permutations([0, 1])))[:k]]
@@ -322,6 +327,9 @@ def check(case) -> Outcome:
                         "subquery_is_" + ("attribute_operand" if pf is None else "argument_of_" + pf[0])]
             if case.get("conn") == "or":
                 feats.append("operand_attr_combined_by_or")      # KF-44
+            if case.get("attr_selected_inside"):
+                feats.append("attribute_selected_inside_the_subquery")
+                classes.append("attribute_selected_inside_the_subquery")
 
             def run(which):
                 V, conts = declare_vars(case, objs)
@@ -336,6 +344,8 @@ def check(case) -> Outcome:
                             mine = [build_cond(cmp_ast, [l, sub])]
                         else:
                             st_ = getattr(sub, case["sub_attr"])
+                            if case.get("attr_selected_inside"):
+                                st_ = an(entity(getattr(x, case["sub_attr"]), build_cond(case["sub_cond"], V)))
                             ot = build_term(case["other"], V)
                             import operator as _op
                             f = {"==": _op.eq, "!=": _op.ne, "<=": _op.le, ">": _op.gt}[case["op"]]
